@@ -123,7 +123,10 @@ G_C06_UnknownRoute(p, o) == HasEffect(o) => Valid(p.cred)
 \* ------------------------------------------------------------------ tables
 Users == {"alice", "root", "auto"}
 CookieLevels == {{"pw"}, {"pw", "totp"}, {"pw", "u2f"}, {"fed"}, {"kmx509"}, {}}
+\* sessions of OTHER users whose names only look like an administrator's (another case, a suffix a name filter would cut)
+LookalikeAdmins == {"Root", "root@contractor.example"}
 Creds == {NoCred} \cup {Cred("cookie", "good", u, fs) : u \in Users, fs \in CookieLevels}
+         \cup {Cred("cookie", "good", u, {"pw", "u2f"}) : u \in LookalikeAdmins}
          \cup {Cred("cookie", v, "root", {"pw", "u2f"}) : v \in {"expired", "expired_just", "notyet_just", "forged", "kind_cli"}}
          \cup {Cred("cookie", "decoy", "alice", fs) : fs \in {{"pw"}, {"pw", "u2f"}}}
          \* typed_other: HTTP Basic with the name capitalised and the password of the backend's OTHER account of that spelling
@@ -141,6 +144,7 @@ InC06(p) == \E o \in Ops, c \in Creds, t \in {"self", "other", "otheradmin"}, m 
                \* completing a factor takes that factor's secret: whoever can make a browser send it cross-site already holds
                \* the user's second factor, and what comes back goes to the user's own browser - not probed cross-site
                /\ (o.effect = "cookie" => og # "cross")
+               /\ (c.user \in LookalikeAdmins => (t = "other" /\ og = "none"))
                /\ (o.name \in Untargeted => t = "self")
                /\ p = [op |-> o.name, cred |-> c, target |-> t, method |-> m, origin |-> og, webui |-> wu]
 
